@@ -134,10 +134,16 @@ func Handler(backendPort int, passthroughHandler http.Handler) http.Handler {
 		go func() {
 			defer wg.Done()
 			io.Copy(backendConn, frontendConn)
+			// The client is done (or gone): let the backend observe the end of the stream,
+			// which also unblocks the copy in the other direction.
+			backendConn.Close()
 		}()
 		go func() {
 			defer wg.Done()
 			io.Copy(frontendConn, backendConn)
+			// The backend is done (or gone): let the client observe the end of the stream,
+			// which also unblocks the copy in the other direction.
+			frontendConn.Close()
 		}()
 		wg.Wait()
 	})
